@@ -34,6 +34,9 @@ BigRec == <<"rec", << <<"s", YS(<<34, 47, 47, 34>>)>>, <<"a b", BigSet>>, <<"if"
 ChainA == One(FoldOp("mul", <<Pn, YN(2), Pn, YN(0 - 3)>>, 4))
 ChainB == One(YBin("less", FoldOp("sub", <<Pn, YN(1), Pn>>, 3), FoldOp("mul", <<YN(2), Pn, YG(YV("context"), "n")>>, 3)))
 ChainC == One(FoldOp("mul", [i \in 1..9 |-> IF i % 2 = 0 THEN YN(100000 + i) ELSE DeepGet(YV("context"), i % 4)], 9))
+ZeroArgs == One(<<"and", <<"isEmpty", <<"set", <<YN(1), Pn>>>>>>,
+                      <<"or", YCall("isLoopback", <<Ip1>>), YBin("eq", YCall("toDate", <<YCall("datetime", <<YS(<<50, 48, 50, 52, 45, 48, 49, 45, 48, 49>>)>>)>>),
+                                                                  YCall("datetime", <<YS(<<50, 48, 50, 52, 45, 48, 49, 45, 48, 49>>)>>))>>>>)
 FmtTexts == <<
   \* ---- small
   <<YPol("permit", <<>>, AnyS, AnyS, AnyS, <<>>)>>,
@@ -53,6 +56,8 @@ FmtTexts == <<
   \* chains of three and more operands of one multiplicative / additive operator (a comment may stand at every operator)
   ChainA,
   ChainB,
+  \* method calls without arguments: `(` and `)` are adjacent tokens that may both carry comments
+  ZeroArgs,
   One(<<"or", <<"and", Pn, <<"or", Cs, Pn>>>>, <<"rel", "gt", YBin("mul", YBin("add", Pn, YN(1)), YN(2)), YN(3)>>>>),
   \* blank and white-space-only lines inside string literals, entity ids and annotation values must survive
   <<YPol("permit", << <<"note", <<"s", <<120, 10, 10, 121>>>>>> >>, <<"eq", YEnt("User", <<10, 10, 97>>)>>, AnyS, AnyS,
@@ -79,7 +84,7 @@ NT == Len(FmtTexts)
 \* quick: each text in one style (rotating); thorough: every text in all four styles
 StyleIdx(t) == (t % 4) + 1
 \* operator chains exist as chains only without redundant parentheses: always also in style "min"
-QuickStyles(t) == {StyleIdx(t)} \cup (IF FmtTexts[t] \in {ChainA, ChainB, ChainC} THEN {1} ELSE {})
+QuickStyles(t) == {StyleIdx(t)} \cup (IF FmtTexts[t] \in {ChainA, ChainB, ChainC, ZeroArgs} THEN {1} ELSE {})
 ToksIn(t, si) == SxSetToks(FmtTexts[t], SxAllStyles[si])
 
 \* ------------------------------------------------------------------ comments
